@@ -6,6 +6,7 @@ import (
 	"os"
 	"path/filepath"
 	"regexp"
+	"runtime"
 	"sort"
 	"strconv"
 	"strings"
@@ -110,13 +111,25 @@ type c20Result struct {
 	nodes    []Node
 	err      error
 	panicked interface{}
-	timeout  bool
+	timeout  bool   // gave up waiting: deadline or memory cap
+	exhausted string // which bound, for the report
 }
 
 type c20Runner struct {
+	base     string // temporary directory (removed at the end, or before an emergency exit)
 	dir      string // configuration directory
 	location string
 }
+
+// Resource bounds of one call of Read. They are far above what the reader needs on any generated input
+// (the largest trees, ~10^5 nodes, take well under a second and a few hundred MB): they only decide when a
+// run-away call is given up. A call that exceeds them cannot be stopped from outside, so the harness
+// reports the violation, closes its output and ends the process (the remaining cases of this run are lost;
+// the op line replays the one that ran away).
+const (
+	c20Deadline = 60 * time.Second
+	c20HeapCap  = 2 << 30 // bytes of live heap
+)
 
 func c20NewRunner(t *testing.T) *c20Runner {
 	base, err := os.MkdirTemp("", "verifc20")
@@ -128,7 +141,7 @@ func c20NewRunner(t *testing.T) *c20Runner {
 		t.Fatal(err)
 	}
 	t.Cleanup(func() { os.RemoveAll(base) })
-	return &c20Runner{dir: dir, location: filepath.Join(dir, "main.conf")}
+	return &c20Runner{base: base, dir: dir, location: filepath.Join(dir, "main.conf")}
 }
 
 func (rn *c20Runner) prepare(cs *c20Case) {
@@ -162,12 +175,37 @@ func (rn *c20Runner) read(input []byte) c20Result {
 		}()
 		res.nodes, res.err = Read(bytes.NewReader(input), rn.location)
 	}()
-	select {
-	case r := <-ch:
-		return r
-	case <-time.After(60 * time.Second):
-		return c20Result{timeout: true}
+	start := time.Now()
+	tick := time.NewTicker(100 * time.Millisecond)
+	defer tick.Stop()
+	for {
+		select {
+		case r := <-ch:
+			return r
+		case <-tick.C:
+			if time.Since(start) > c20Deadline {
+				return c20Result{timeout: true, exhausted: fmt.Sprintf("no result after %v", c20Deadline)}
+			}
+			var ms runtime.MemStats
+			runtime.ReadMemStats(&ms)
+			if ms.HeapAlloc > c20HeapCap {
+				runtime.GC() // garbage of earlier cases does not count
+				runtime.ReadMemStats(&ms)
+				if ms.HeapAlloc > c20HeapCap {
+					return c20Result{timeout: true, exhausted: fmt.Sprintf("live heap %d MB after %v and growing, no result", ms.HeapAlloc>>20, time.Since(start).Round(100*time.Millisecond))}
+				}
+			}
+		}
 	}
+}
+
+// giveUp is called after a run-away call of Read was reported: the goroutine is still running and
+// allocating, nothing more can be done in this process.
+func (rn *c20Runner) giveUp(out *vh.Out) {
+	out.Note("a call of Read ran away (see the C20/timeout violation); harness process ended early")
+	out.Close()
+	os.RemoveAll(rn.base)
+	os.Exit(3)
 }
 
 func (rn *c20Runner) fileID(cs *c20Case, path string) int {
@@ -241,6 +279,7 @@ var c20ErrKinds = []struct{ pre, kind string }{
 	{"can't use macro argument as directive name", "macroAsName"},
 	{"can't expand macro with multiple arguments inside a string", "macroMultiInString"},
 	{"unexpected EOF when looking for }", "unexpectedEOF"},
+	{"hit import expansion limit: too many nodes", "importNodes"},
 	{"hit import expansion limit", "importLimit"},
 	{"import directive requires exactly 1 argument", "importArgs"},
 	{"unknown import: ", "unknownImport"},
@@ -361,6 +400,86 @@ func c20WellFormed(ns []Node) string {
 	return ""
 }
 
+// ---- "no macro, snippet or import remains unexpanded", for the text of names and arguments
+//
+// The reader substitutes macro values textually, once, and expands the environment afterwards; it never
+// looks at the result again. Text of the form `$(…)` in the output is therefore not always a reference
+// that was left alone: it can be assembled from pieces (`x$(a$(b)$(b)c)` with `$(b)` undefined gives
+// `x$(ac)`; a value `(` or `$`; `{env:X}` with X="$(m1)"). The rule is applied to the cases where nothing
+// of that kind is possible (c20PlainRefs): every token that contains `$(` consists of plain references
+// `$(name)` (name without `$`, `(`, `)`) and text without parentheses, and no macro or environment value
+// contains `$`, `(` or `)`. In such a case the reader's own reference syntax (`$(` + characters other
+// than `$` + `)`, or a whole argument from `$(` to `)`) recognises exactly the plain references, each is
+// replaced by a value without `$(`, and so NO `$(` may be left anywhere in the tree.
+
+// c20ResidualRef returns the first `$(` found in a name or an argument.
+func c20ResidualRef(ns []Node) string {
+	for _, n := range ns {
+		if strings.Contains(n.Name, "$(") {
+			return "macro reference left in directive name " + strconv.Quote(n.Name)
+		}
+		for _, a := range n.Args {
+			if i := strings.Index(a, "$("); i >= 0 {
+				return "unexpanded macro reference left in argument " + strconv.Quote(a) + " of directive " + strconv.Quote(n.Name)
+			}
+		}
+		if s := c20ResidualRef(n.Children); s != "" {
+			return s
+		}
+	}
+	return ""
+}
+
+var c20PlainRefRe = regexp.MustCompile(`\$\([^$()]+\)`)
+
+// c20PlainRefs: see above. Tokens are taken from the real lexer; a token is (over-approximately) part of
+// a macro declaration when it follows, on the same logical line, a token that starts with `$(` and
+// stands where a directive name can stand (start of a line, or right after a brace).
+func c20PlainRefs(cs *c20Case) bool {
+	for _, e := range cs.env {
+		if strings.ContainsAny(e[1], "$()") {
+			return false
+		}
+	}
+	scan := func(content []byte) bool {
+		d := lexer.NewDispenser("", bytes.NewReader(content))
+		inDecl, first := false, true
+		prevEnd, prev := 0, ""
+		for d.Next() {
+			t := d.Val()
+			newLine := first || d.Line() > prevEnd
+			if newLine && prev == "\\" {
+				newLine = false // line continuation
+			}
+			if newLine {
+				inDecl = false
+			}
+			rest := c20PlainRefRe.ReplaceAllString(t, "")
+			if strings.Contains(t, "$(") && strings.ContainsAny(rest, "()") {
+				return false
+			}
+			if strings.HasPrefix(t, "$(") && (newLine || prev == "{" || prev == "}") {
+				inDecl = true
+			} else if inDecl && strings.ContainsAny(rest, "$()") {
+				return false
+			}
+			first = false
+			prevEnd = d.Line() + strings.Count(t, "\n")
+			prev = t
+		}
+		return true
+	}
+	if !scan(cs.input) {
+		return false
+	}
+	for _, f := range cs.files {
+		if !scan(f.content) {
+			return false
+		}
+	}
+	return true
+}
+
 // c20Expressible: every token of the tree can be written in the quoted syntax and is not subject to
 // further interpretation by the reader (brace, continuation, macro reference, env placeholder).
 func c20Expressible(ns []Node) bool {
@@ -410,100 +529,6 @@ func c20SameShape(a, b []Node) bool {
 	return true
 }
 
-// ---------------------------------------------------------------- resource budget (outside the model)
-
-type c20Region struct {
-	size    int
-	targets []string
-	wild    int
-}
-
-// c20Budget over-approximates the number of nodes import expansion can create (regions = token runs
-// between snippet-header-shaped tokens, plus one per source) and refuses inputs above the budget.
-func c20Budget(cs *c20Case) bool {
-	regs := map[string]*c20Region{}
-	get := func(k string) *c20Region {
-		if regs[k] == nil {
-			regs[k] = &c20Region{}
-		}
-		return regs[k]
-	}
-	scan := func(srcKey string, content []byte) {
-		d := lexer.NewDispenser("", bytes.NewReader(content))
-		var toks []string
-		for d.Next() {
-			toks = append(toks, d.Val())
-		}
-		cur := get(srcKey)
-		root := cur
-		for i, t := range toks {
-			if strings.HasPrefix(t, "(") && strings.HasSuffix(t, ")") && len(t) >= 2 {
-				cur = get("snip:" + t[1:len(t)-1])
-			}
-			for _, r := range []*c20Region{cur, root} {
-				r.size++
-				if t == "import" {
-					if i+1 < len(toks) {
-						if strings.Contains(toks[i+1], "$(") {
-							r.wild++
-						} else {
-							r.targets = append(r.targets, toks[i+1])
-						}
-					}
-				}
-				if cur == root {
-					break
-				}
-			}
-		}
-	}
-	scan("src:main", cs.input)
-	for _, f := range cs.files {
-		scan("src:"+f.name, f.content)
-	}
-	var keys []string
-	for k := range regs {
-		keys = append(keys, k)
-	}
-	const cap = 400000
-	type mk struct {
-		k string
-		d int
-	}
-	memo := map[mk]int{}
-	var S func(k string, d int) int
-	S = func(k string, d int) int {
-		r := regs[k]
-		if r == nil || d > 258 {
-			return 0
-		}
-		if v, ok := memo[mk{k, d}]; ok {
-			return v
-		}
-		memo[mk{k, d}] = cap // cycle guard while computing (depth always grows, so not needed; kept for safety)
-		tot := r.size
-		for _, t := range r.targets {
-			for _, cand := range []string{"snip:" + t, "src:" + t, "src:" + t + ".conf"} {
-				tot += S(cand, d+1)
-				if tot > cap {
-					tot = cap
-				}
-			}
-		}
-		for i := 0; i < r.wild; i++ {
-			for _, cand := range keys {
-				tot += S(cand, d+1)
-				if tot > cap {
-					tot = cap
-				}
-			}
-		}
-		memo[mk{k, d}] = tot
-		return tot
-	}
-	return S("src:main", 0) < cap
-}
-
 // ---------------------------------------------------------------- one case
 
 func c20Bucket(n int) string {
@@ -535,17 +560,14 @@ func c20Count(ns []Node) int {
 
 func (rn *c20Runner) runCase(out *vh.Out, cs *c20Case, withPrint bool, tag string) {
 	op := "C20 parse " + cs.opArgs()
-	if !c20Budget(cs) {
-		out.Stat("skipped=expansion-budget/" + tag)
-		return
-	}
 	rn.prepare(cs)
 	res := rn.read(cs.input)
 	out.Stat("gen=" + tag)
 	switch {
 	case res.timeout:
-		out.Violation("C20/timeout", op, "no result after 60s")
+		out.Violation("C20/timeout", op, "configuration parsing does not terminate within the resource bounds: "+res.exhausted)
 		out.Corr(op, "timeout")
+		rn.giveUp(out)
 		return
 	case res.panicked != nil:
 		out.Violation("C20/panic", op, fmt.Sprint(res.panicked))
@@ -582,6 +604,15 @@ func (rn *c20Runner) runCase(out *vh.Out, cs *c20Case, withPrint bool, tag strin
 	}
 	if depth > c20NestLimit {
 		out.Violation("C20/nesting-unbounded", op, fmt.Sprintf("tree depth %d exceeds the parser's nesting limit %d", depth, c20NestLimit))
+		out.Violation("C20/ill-formed-output", op, fmt.Sprintf("blocks nested %d deep, deeper than the limit %d the parser itself enforces", depth, c20NestLimit))
+	}
+	if !c20PlainRefs(cs) {
+		out.Stat("residual-ref=not-applicable")
+	} else {
+		out.Stat("residual-ref=checked")
+		if s := c20ResidualRef(res.nodes); s != "" {
+			out.Violation("C20/ill-formed-output", op, s)
+		}
 	}
 	var pr strings.Builder
 	c20Print(res.nodes, &pr)
@@ -599,7 +630,10 @@ func (rn *c20Runner) runCase(out *vh.Out, cs *c20Case, withPrint bool, tag strin
 	res2 := rn.read([]byte(pr.String()))
 	switch {
 	case res2.timeout || res2.panicked != nil:
-		out.Violation("C20/roundtrip", op, fmt.Sprintf("re-parse of the printed tree crashed or hung: %v", res2.panicked))
+		out.Violation("C20/roundtrip", op, fmt.Sprintf("re-parse of the printed tree crashed or hung: %v %s", res2.panicked, res2.exhausted))
+		if res2.timeout {
+			rn.giveUp(out)
+		}
 	case res2.err != nil:
 		out.Violation("C20/roundtrip", op, "re-parse of the printed tree failed: "+res2.err.Error())
 	case !c20SameShape(res.nodes, res2.nodes):
@@ -726,6 +760,328 @@ func c20GenCase(r *vh.Rng) (*c20Case, string) {
 	return cs, tag
 }
 
+// ---- inputs whose import expansion multiplies the tree (fix 3: maxExpandedNodes)
+//
+// Nothing here is skipped or pre-computed: the reader has to come back with a tree or an error within
+// the resource bounds of c20Runner.read, whatever the multiplication factor.
+func c20GenExpo(r *vh.Rng) (*c20Case, string) {
+	cs := &c20Case{files: c20DirEntries()}
+	var b strings.Builder
+	payload := func(n int) string {
+		var p strings.Builder
+		for i := 0; i < n; i++ {
+			p.WriteString(" " + vcfg.TreeNames[r.Intn(len(vcfg.TreeNames))] + " " + strconv.Itoa(i) + "\n")
+		}
+		return p.String()
+	}
+	imports := func(name string, f int) string { return strings.Repeat(" import "+name+"\n", f) }
+	// levels of a chain: mostly small (the whole tree is returned), sometimes around the limit, often far above
+	levels := func() int {
+		switch x := r.Intn(100); {
+		case x < 55:
+			return 1 + r.Intn(9)
+		case x < 62:
+			return 10 + r.Intn(7)
+		default:
+			return 17 + r.Intn(40)
+		}
+	}
+	wrap := func(body string) string { // the top-level import, possibly inside blocks
+		d := r.Intn(3)
+		return strings.Repeat("w {\n", d) + body + strings.Repeat("}\n", d)
+	}
+	tag := ""
+	switch kind := r.Intn(9); kind {
+	case 0: // a snippet importing itself several times
+		f := 2 + r.Intn(2)
+		if r.Chance(30) {
+			b.WriteString("(a) { import a \n" + strings.Repeat(" import a \n", f-2) + " import a }\n")
+		} else {
+			b.WriteString("(a) {\n" + payload(r.Intn(3)) + imports("a", f) + "}\n")
+		}
+		b.WriteString(wrap("import a\n"))
+		tag = "self"
+	case 1, 2: // s_k imports s_(k-1) f times: f^k nodes from O(k) bytes, no recursion
+		k, f := levels(), 2
+		if r.Chance(20) {
+			f, k = 3, 1+k*5/8
+		}
+		var decls []string
+		if kind == 2 {
+			decls = append(decls, "(s0) {\n}\n") // everything vanishes at the end; only the import directives multiply
+		} else {
+			decls = append(decls, "(s0) {\n"+payload(1+r.Intn(2))+"}\n")
+		}
+		for i := 1; i <= k; i++ {
+			decls = append(decls, "(s"+strconv.Itoa(i)+") {\n"+imports("s"+strconv.Itoa(i-1), f)+"}\n")
+		}
+		if r.Chance(50) { // declaration order does not matter
+			for i, j := 0, len(decls)-1; i < j; i, j = i+1, j-1 {
+				decls[i], decls[j] = decls[j], decls[i]
+			}
+		}
+		top := wrap("import s" + strconv.Itoa(k) + "\n")
+		if r.Chance(50) {
+			b.WriteString(strings.Join(decls, "") + top)
+		} else {
+			b.WriteString(top + strings.Join(decls, ""))
+		}
+		tag = "chain"
+	case 3: // mutual recursion
+		n := 2 + r.Intn(2)
+		for i := 0; i < n; i++ {
+			f := 2
+			if i > 0 && r.Chance(40) {
+				f = 1
+			}
+			b.WriteString("(c" + strconv.Itoa(i) + ") {\n" + payload(r.Intn(2)) + imports("c"+strconv.Itoa((i+1)%n), f) + "}\n")
+		}
+		b.WriteString(wrap("import c0\n"))
+		tag = "mutual"
+	case 4: // doubling below a block of the snippet: every level is one block deeper
+		b.WriteString("(a) {\n x {\n" + imports("a", 2) + " }\n}\n" + wrap("import a\n"))
+		tag = "nested"
+	case 5, 6: // files e1 → e2 → …, each importing the next one twice; with or without any directive at the end
+		k := 1 + r.Intn(11)
+		if r.Chance(6) {
+			k = 17 + r.Intn(8)
+		}
+		last := []string{"", "$(m1) = 1\n", "y 1\n", "(sq) {\n q\n}\n"}[r.Intn(4)]
+		if kind == 6 {
+			last = "n 1\nn 2\n"
+		}
+		for i := 1; i <= k; i++ {
+			content := last
+			if i < k {
+				content = "import e" + strconv.Itoa(i+1) + "\nimport e" + strconv.Itoa(i+1) + "\n"
+				if kind == 6 {
+					content = "f" + strconv.Itoa(i) + "\n" + content
+				}
+			}
+			name := "e" + strconv.Itoa(i)
+			if r.Chance(30) {
+				name += ".conf"
+			}
+			cs.files = append(cs.files, c20File{name, i, []byte(content)})
+		}
+		b.WriteString(wrap("import e1\n"))
+		tag = "files"
+	case 7: // the doubling snippets come from an imported file
+		cs.files = append(cs.files, c20File{"exlib", 1, []byte("(la) {\n import lb\n import lb\n}\n(lb) {\n import " + []string{"la", "lc"}[r.Intn(2)] + "\n import lc\n}\n(lc) {\n z\n}\nfromlib\n")})
+		b.WriteString("import exlib\n" + wrap(imports("la", 1+r.Intn(3))))
+		tag = "file-snippets"
+	default: // no multiplication at all: one snippet imported many times, around the limit
+		p := 1 + r.Intn(120)
+		c := 100000/(p+1) + r.Intn(5) - 2
+		if r.Chance(60) {
+			c = r.Intn(200)
+		}
+		b.WriteString("(a) {\n" + payload(p) + "}\n" + strings.Repeat("import a\n", c))
+		tag = "wide"
+	}
+	cs.input = []byte(b.String())
+	return cs, "expo/" + tag
+}
+
+// the fixed part of the same: the reviewer's 40-byte input, chains on both sides of the limit, the exact
+// boundary of the counter (1000 imports of a 99-node snippet: 1000·(1+99) = maxExpandedNodes, one more is too many)
+func c20ExpoFixed() []*c20Case {
+	mk := func(input string, files ...c20File) *c20Case {
+		return &c20Case{input: []byte(input), files: append(c20DirEntries(), files...)}
+	}
+	chain := func(k int, base string) string {
+		var b strings.Builder
+		b.WriteString("(s0) {\n" + base + "}\n")
+		for i := 1; i <= k; i++ {
+			b.WriteString("(s" + strconv.Itoa(i) + ") {\n import s" + strconv.Itoa(i-1) + "\n import s" + strconv.Itoa(i-1) + "\n}\n")
+		}
+		return b.String() + "import s" + strconv.Itoa(k) + "\n"
+	}
+	var p99 strings.Builder
+	for i := 0; i < 99; i++ {
+		p99.WriteString(" d" + strconv.Itoa(i) + "\n")
+	}
+	var efiles []c20File
+	for i := 1; i <= 18; i++ {
+		content := ""
+		if i < 18 {
+			content = "import e" + strconv.Itoa(i+1) + "\nimport e" + strconv.Itoa(i+1) + "\n"
+		}
+		efiles = append(efiles, c20File{"e" + strconv.Itoa(i), i, []byte(content)})
+	}
+	return []*c20Case{
+		mk("(a) { import a \n import a }\nimport a\n"),
+		mk("(a) { import a \n import a }\n"),
+		mk(chain(12, " x\n")),
+		mk(chain(40, " x\n")),
+		mk(chain(200, "")),
+		mk("(a) {\n import b\n import b\n}\n(b) {\n import a\n import a\n}\nimport a\n"),
+		mk("(a) {\n" + p99.String() + "}\n" + strings.Repeat("import a\n", 1000)),
+		mk("(a) {\n" + p99.String() + "}\n" + strings.Repeat("import a\n", 1001)),
+		mk("import e1\n", efiles...),
+	}
+}
+
+// ---- macro references inside longer arguments: defined, undefined, value-less, defined later or elsewhere
+//
+// Every case is "plain" in the sense of c20PlainRefs, so the residual-reference rule applies to all of them.
+func c20GenEmbedded(r *vh.Rng) (*c20Case, string) {
+	cs := &c20Case{files: c20DirEntries()}
+	lits := []string{"", "", "pre-", "-post", "/etc/", "/x", "user@", ".example.org", ":25", "a b", "\u00e9", "tcp://", "=", "$", "{env:H}", "_", "#", "{", "}x", "\\"}
+	names := []string{"host", "dom", "zero", "nope", "hostnme", "late", "m1", "empty", "a.b", "x-y", "\u00e9", "1"}
+	ref := func() string { return "$(" + names[r.Intn(len(names))] + ")" }
+	arg := func() string {
+		var a string
+		switch x := r.Intn(100); {
+		case x < 15:
+			a = ref() // the whole argument
+		case x < 70:
+			a = lits[r.Intn(len(lits))] + ref() + lits[r.Intn(len(lits))]
+		case x < 90:
+			a = lits[r.Intn(len(lits))] + ref() + lits[r.Intn(len(lits))] + ref() + lits[r.Intn(len(lits))]
+		default:
+			m := ref()
+			a = lits[r.Intn(len(lits))] + m + m + lits[r.Intn(len(lits))] + m
+		}
+		if a == "" || strings.ContainsAny(a, " #{}\\") || r.Chance(15) {
+			return "\"" + a + "\""
+		}
+		return a
+	}
+	decl := func(b *strings.Builder, name string) {
+		switch r.Intn(6) {
+		case 0:
+			b.WriteString("$(" + name + ") = $(nope)\n") // declared, no value at all
+		case 1:
+			b.WriteString("$(" + name + ") = $(nope) $(hostnme)\n")
+		case 2:
+			b.WriteString("$(" + name + ") = \"\"\n") // one empty value
+		case 3:
+			b.WriteString("$(" + name + ") = v-$(dom)\n") // defined through another one (possibly undefined)
+		default:
+			b.WriteString("$(" + name + ") = " + []string{"mx.example.org", "example.org", "x", "\"a b\"", "10"}[r.Intn(5)] + "\n")
+		}
+	}
+	var b strings.Builder
+	for _, nm := range []string{"host", "dom", "zero", "m1", "empty", "a.b", "x-y", "\u00e9", "1"} {
+		if r.Chance(45) {
+			decl(&b, nm)
+		}
+	}
+	useFile := r.Chance(20)
+	if useFile {
+		var f strings.Builder
+		decl(&f, "late") // macros of an imported file are visible after the import only
+		f.WriteString("infile " + arg() + "\n")
+		cs.files = append(cs.files, c20File{"mlib", 1, []byte(f.String())})
+	}
+	useSnip := r.Chance(30)
+	if useSnip {
+		b.WriteString("(ms) {\n insnip " + arg() + " " + arg() + "\n}\n")
+	}
+	n := 1 + r.Intn(5)
+	for i := 0; i < n; i++ {
+		nm := vcfg.TreeNames[r.Intn(len(vcfg.TreeNames))]
+		b.WriteString(nm)
+		for k := 1 + r.Intn(3); k > 0; k-- {
+			b.WriteString(" " + arg())
+		}
+		if r.Chance(30) {
+			b.WriteString(" {\n  inner " + arg() + "\n")
+			if useSnip && r.Chance(50) {
+				b.WriteString("  import ms\n")
+			}
+			b.WriteString("}")
+		}
+		b.WriteString("\n")
+		if useFile && r.Chance(40) {
+			b.WriteString("import mlib\n")
+		}
+	}
+	if r.Chance(50) {
+		decl(&b, "late") // too late for the uses above
+	}
+	for _, k := range []string{"H", "DOMAIN"} {
+		if r.Chance(50) {
+			cs.env = append(cs.env, [2]string{k, []string{"example.org", "", "with space", "mx"}[r.Intn(4)]})
+		}
+	}
+	cs.input = []byte(b.String())
+	return cs, "embedded-ref"
+}
+
+// ---- declarations closed by `}` on their own line (readNodes: `continue` past the shouldStop break)
+//
+// `x { $(m) = v }` and `x { (s) }` decrement ctx.nesting and carry on INSIDE the block: every following
+// line is one block deeper while ctx.nesting stays at 1. Only the walk after import expansion
+// (checkNesting) bounds the depth of what Read returns.
+func c20GenSameLine(r *vh.Rng) (*c20Case, string) {
+	cs := &c20Case{files: c20DirEntries()}
+	var n int
+	switch x := r.Intn(100); {
+	case x < 30:
+		n = 1 + r.Intn(40)
+	case x < 50:
+		n = 240 + r.Intn(17)
+	case x < 92:
+		n = 257 + r.Intn(80)
+	default:
+		n = 600 + r.Intn(1500)
+	}
+	decls := []string{"$(m1) = v }", "(sa) }", "$(m2) = v w }", "$(mm) = \"a b\" }", "$(m1) = $(m2) }", "(sb) }"}
+	var b strings.Builder
+	withImport := r.Chance(35)
+	if withImport {
+		b.WriteString("(st) {\n q 1\n}\n")
+	}
+	one := r.Chance(60)
+	d0 := decls[r.Intn(len(decls))]
+	for i := 0; i < n; i++ {
+		d := d0
+		if !one {
+			d = decls[r.Intn(len(decls))]
+		}
+		b.WriteString(vcfg.TreeNames[r.Intn(len(vcfg.TreeNames))] + " { " + d + "\n")
+		if r.Chance(3) {
+			b.WriteString("between " + strconv.Itoa(i) + "\n")
+		}
+	}
+	// ordinary blocks below, counted by ctx.nesting
+	k := 0
+	switch x := r.Intn(100); {
+	case x < 50:
+	case x < 80:
+		k = 1 + r.Intn(12)
+	default:
+		k = 245 + r.Intn(14)
+	}
+	b.WriteString(strings.Repeat("o {\n", k))
+	switch r.Intn(4) {
+	case 0:
+		b.WriteString("leaf x$(m1)y $(mm)\n")
+	case 1:
+		b.WriteString("leaf\n")
+	}
+	if withImport {
+		b.WriteString("import st\n")
+	}
+	closeN := k
+	if r.Chance(15) {
+		closeN = r.Intn(k + 2)
+	}
+	b.WriteString(strings.Repeat("}\n", closeN))
+	cs.input = []byte(b.String())
+	if r.Chance(15) {
+		g := &vcfg.Gen{R: r}
+		cs.input = []byte(g.Mutate(string(cs.input), 1))
+	}
+	tag := "sameline-close"
+	if withImport {
+		tag += "+import"
+	}
+	return cs, tag
+}
+
 // the configuration directory itself is always reachable through "", "." and ".."
 func c20DirEntries() []c20File {
 	return []c20File{{"", 90, nil}, {".", 91, nil}, {"..", 92, nil}}
@@ -769,7 +1125,10 @@ func (rn *c20Runner) runTree(out *vh.Out, cs *c20Case, tree []Node) {
 	out.Stat("tree=checked")
 	switch {
 	case res.timeout || res.panicked != nil:
-		out.Violation("C20/roundtrip", op, fmt.Sprintf("parse of a printed tree crashed or hung: %v", res.panicked))
+		out.Violation("C20/roundtrip", op, fmt.Sprintf("parse of a printed tree crashed or hung: %v %s", res.panicked, res.exhausted))
+		if res.timeout {
+			rn.giveUp(out)
+		}
 	case res.err != nil:
 		out.Violation("C20/roundtrip", op, "parse of a printed expressible tree failed: "+res.err.Error())
 	case !c20SameShape(tree, res.nodes):
@@ -894,6 +1253,9 @@ func TestVerifC20Parse(t *testing.T) {
 		res := rn.read(b)
 		if res.err != nil || res.panicked != nil || res.timeout {
 			out.Violation("C20/shipped-does-not-parse", "C20 parse "+cs.opArgs(), fmt.Sprint(res.err, res.panicked, res.timeout))
+			if res.timeout {
+				rn.giveUp(out)
+			}
 		}
 		rn.runCase(out, cs, true, "shipped")
 		if !c20Expressible(res.nodes) {
@@ -907,8 +1269,30 @@ func TestVerifC20Parse(t *testing.T) {
 		}
 	}
 
+	for _, cs := range c20ExpoFixed() {
+		rn.runCase(out, cs, false, "expo/fixed")
+	}
+
 	for i := 0; i < n; i++ {
 		r := vh.NewRng(seed*7919 + uint64(i))
+		if i%600 == 11 {
+			cs, tag := c20GenExpo(r)
+			rn.runCase(out, cs, false, tag)
+			continue
+		}
+		if i%50 == 13 {
+			cs, tag := c20GenSameLine(r)
+			rn.runCase(out, cs, i%3 == 0, tag)
+			continue
+		}
+		if i%20 == 9 {
+			cs, tag := c20GenEmbedded(r)
+			if !c20PlainRefs(cs) {
+				out.Violation("C20/harness-self-check", "C20 parse "+cs.opArgs(), "embedded-ref generator produced a case the residual-reference rule does not apply to")
+			}
+			rn.runCase(out, cs, i%3 == 0, tag)
+			continue
+		}
 		if i%8 == 7 {
 			cs := &c20Case{files: c20DirEntries()}
 			for _, k := range vcfg.EnvKeys {
